@@ -22,7 +22,9 @@ def obligations(tier, ctx):
         Ob(name="near_append", params=[("i", "int"), ("c", "str")], pre=["0 <= i <= 2", "len(c) <= 1"], call="H.near_version(i, 0, 0, c)", backend="F", timeout=300, family="requested version within one edit of a supported one"),
         Ob(name="near_prepend", params=[("i", "int"), ("c", "str")], pre=["0 <= i <= 2", "len(c) <= 1"], call="H.near_version(i, 1, 0, c)", backend="F", timeout=300, family="requested version within one edit of a supported one"),
         Ob(name="reinit_any", params=[("f", "int"), ("v", "str")], pre=["0 <= f <= 2", "len(v) <= 3"], call="H.reinit(f, v)", backend="F", timeout=300, family="second handshake on a live session"),
-        Ob(name="reinit_supported", params=[("f", "int"), ("g", "int")], pre=["0 <= f <= 2", "0 <= g <= 2"], call="H.reinit(f, H.VER.SUPPORTED_VERSIONS[0] if g == 0 else (H.VER.SUPPORTED_VERSIONS[1] if g == 1 else H.VER.SUPPORTED_VERSIONS[-1]))", backend="F", timeout=300, family="second handshake on a live session"),
+        Ob(name="reinit_supported", params=[("f", "int"), ("g", "int")], pre=["0 <= f <= 2", "0 <= g <= 2"], call="H.reinit(f, H.SUP0[0] if g == 0 else (H.SUP0[1] if g == 1 else H.SUP0[-1]))", backend="F", timeout=300, family="second handshake on a live session"),
+        Ob(name="twice_any", params=[("v", "str"), ("o", "bool"), ("t", "bool")], pre=["len(v) <= 3"], call="H.init_twice(v, o, t)", backend="F", timeout=300, family="the same version requested two or three times (one server / two servers of one process)"),
+        Ob(name="twice_date", params=[("v", "str"), ("o", "bool")], pre=date_pre("v"), call="H.init_twice(v, o, False)", backend="F", timeout=400, family="the same version requested two or three times (one server / two servers of one process)"),
         Ob(name="supported", params=[("i", "int")], pre=["0 <= i <= 2"], call="H.init_version(1, '', i)", backend="F", timeout=120, family="requested version"),
         Ob(name="nonstring", params=[("k", "int")], pre=["2 <= k <= 5"], call="H.init_version(k, '', 0)", backend="F", timeout=120, family="requested version"),
     ]
